@@ -1450,7 +1450,20 @@ def refit_stream(rng, spec, cell, refits=4, reverse_c=False):
     a += [variant(rng, m, cell, False) for m in specs if not m.once] + [variant(rng, fits[-1], cell, False)]
     a += [new_op(rng, m, cell) for m in reads]
     b = [variant(rng, m, cell, False) for m in specs]
-    b += [variant(rng, fits[0], cell, False), new_op(rng, fits[-1], cell)] + [new_op(rng, m, cell) for m in res]
+    b += [variant(rng, fits[0], cell, False)]
+    # plan sweep: one fit for every value of every categorical (string / bool) argument the fit generators offer -- every
+    # kind of plan ('all', 'none', 'natural', a custom expression), solver, distribution, switch -- before the models
+    # are re-specified below: whatever a kind of plan leaves in the object must not reach the re-specified model or the
+    # next fit.  (Not compared with fresh objects themselves: the judged calls that follow are.)
+    seen = {(b[-1]['mid'], k, repr(v)) for k, v in b[-1]['args'].items() if isinstance(v, (str, bool))}
+    for m in fits:
+        for _ in range(16):
+            o = new_op(rng, m, cell)
+            new = {(m.mid, k, repr(v)) for k, v in o['args'].items() if isinstance(v, (str, bool))} - seen
+            if new and sum(1 for x in b if x.get('judge') is False) < 4:
+                b.append(light(o))
+                seen |= new
+    b += [new_op(rng, fits[-1], cell)] + [new_op(rng, m, cell) for m in res]
     for m in specs:
         if not m.once:
             b += [variant(rng, m, cell, True), new_op(rng, pick(rng, fits), cell)] + [new_op(rng, x, cell) for x in res]
